@@ -40,11 +40,17 @@ func (o cliOp) String() string {
 // runClientHistory runs the op sequence on a fresh real client under a fake clock against the simulator
 // (whose goroutines live outside the bubble: sockets work across, and the fake clock stands still
 // while the client waits for the network).
-func runClientHistory(t *testing.T, sim *kdcSim, confExtra string, ops []cliOp) (obs []cliObs, hung bool) {
+func runClientHistory(t *testing.T, sim *kdcSim, confExtra string, ops []cliOp) (obs []cliObs, hung bool, cfgChanged string) {
 	cfg, err := config.NewFromString(sim.conf(confExtra))
 	if err != nil {
 		t.Fatal(err)
 	}
+	cfgBefore, _ := cfg.JSON()
+	defer func() {
+		if cfgAfter, _ := cfg.JSON(); cfgAfter != cfgBefore && !hung {
+			cfgChanged = "before: " + cfgBefore + " after: " + cfgAfter
+		}
+	}()
 	done := make(chan struct{})
 	go func() {
 		defer close(done)
@@ -177,7 +183,10 @@ func genHistory(rng *RNG, life time.Duration, n int) []cliOp {
 func c10Run(t *testing.T, m *Model, v *Verdict, sc c10Scenario, rng *RNG) {
 	sim := newKDCSim(sc.pol, sc.lifeCf, rng)
 	defer sim.close()
-	obs, hung := runClientHistory(t, sim, sc.conf, sc.ops)
+	obs, hung, cfgChanged := runClientHistory(t, sim, sc.conf, sc.ops)
+	if cfgChanged != "" {
+		v.Violate("failing-input", "c10:config-changed", "using the client changed the configuration it was given (later requests no longer follow what the application configured)", map[string]string{"scenario": sc.name, "detail": cut(cfgChanged, 3000)})
+	}
 	var hist []string
 	for _, o := range sc.ops {
 		hist = append(hist, o.String())
@@ -339,12 +348,6 @@ func c10Run(t *testing.T, m *Model, v *Verdict, sc c10Scenario, rng *RNG) {
 			if ans == "ok" {
 				continue
 			}
-			// the authenticator of a non-TGT ticket presented for renewal uses the application key usage: the
-			// simulator refuses it (error 31) and the client asks afresh; the checker cannot open it either
-			if r.kind == "TGS" && r.renew && (len(sim.tickets[r.tktID-1].sname) == 0 || sim.tickets[r.tktID-1].sname[0] != "krbtgt") && r.errCode == 31 {
-				v.Case(sig+fmt.Sprintf(":req%d:svc-renew", checked), "request TGS renewal of a service ticket (usage 11, refused, asked afresh)")
-				continue
-			}
 			what := "a request is not well-formed or does not carry the configured values: " + ans
 			ssig := sig + ":request"
 			if r.kind == "AS" && r.pa && r.errCode == 24 && !sc.pol.defaultSalt && strings.Contains(ans, "does not decrypt under the client's key") {
@@ -432,6 +435,10 @@ func TestC10(t *testing.T) {
 			name = "renewable-short"
 		}
 		pol.defaultSalt = rng.Intn(2) == 0
+		if rng.Intn(2) == 0 {
+			pol.grace = 5 * time.Minute // a KDC honours tickets within its clock skew after their end
+			name += "+grace"
+		}
 		sc := c10Scenario{name: fmt.Sprintf("%s/life=%v/pa=%v/#%d", name, life, pol.requirePA, i), pol: pol, lifeCf: 24 * time.Hour, ops: genHistory(rng, life, 6+rng.Intn(10))}
 		if strings.Contains(conf, "renew_lifetime") {
 			sc.renewCf = 72 * time.Hour
@@ -443,6 +450,11 @@ func TestC10(t *testing.T) {
 	rng := NewRNG(Seed())
 	// fixed histories
 	fixed := []c10Scenario{
+		// a service ticket renewed just after its end, by a KDC that honours it within its clock skew and issues
+		// a fresh session key with the renewed ticket
+		{name: "renew-within-skew", pol: simPolicy{maxLife: 10 * time.Minute, maxRenew: time.Hour, sessionEt: 18, grace: 5 * time.Minute}, conf: " ticket_lifetime = 24h\n renew_lifetime = 72h\n", lifeCf: 24 * time.Hour, renewCf: 72 * time.Hour,
+			ops: []cliOp{{kind: "sleep", d: 500 * time.Millisecond}, {kind: "login"}, {kind: "get", spn: "HTTP/host.test.gokrb5"}, {kind: "sleep", d: 10*time.Minute + time.Second}, {kind: "get", spn: "HTTP/host.test.gokrb5"}, {kind: "get", spn: "HTTP/host.test.gokrb5"},
+				{kind: "sleep", d: 10*time.Minute + 2*time.Second}, {kind: "get", spn: "HTTP/host.test.gokrb5"}, {kind: "get", spn: "HTTP/host.test.gokrb5"}}},
 		{name: "always-refer", pol: simPolicy{maxLife: 10 * time.Hour, sessionEt: 18, alwaysRefer: true}, conf: " ticket_lifetime = 24h\n", lifeCf: 24 * time.Hour,
 			ops: []cliOp{{kind: "login"}, {kind: "get", spn: "HTTP/host.test.gokrb5"}, {kind: "get", spn: "HTTP/svc.other.realm"}}},
 		{name: "two-hop", pol: simPolicy{maxLife: 10 * time.Hour, maxRenew: 7 * 24 * time.Hour, requirePA: true, sessionEt: 18}, conf: " ticket_lifetime = 24h\n renew_lifetime = 72h\n", lifeCf: 24 * time.Hour,
